@@ -26,10 +26,15 @@ Definition L (s : string) : str := List.map N_of_ascii (list_ascii_of_string s).
 
 (* ---- stages that may raise, with the classes ------------------------------------------------------ *)
 Definition raising : list (string * list string) :=
-  [ (* first clause of C20 (Lex/Progress.v + search): the reader raises only its own two classes *)
-    ("parse", ["LexerError"; "ParserError"]);
-    ("parse_with_warnings", ["LexerError"; "ParserError"]);
-    ("tokenize", ["LexerError"; "ParserError"]);
+  [ (* first clause of C20: the reader raises its own two classes (Lex/Progress.v + search) -- and, on the
+       pinned tree, ValueError from `int(lexeme)` on an integer literal longer than CPython's 4300-digit
+       conversion limit (finding C20-lexer-int-digit-limit; outside the lexer model, which keeps the lexeme) *)
+    ("parse", ["LexerError"; "ParserError"; "ValueError"]);
+    ("parse_with_warnings", ["LexerError"; "ParserError"; "ValueError"]);
+    ("tokenize", ["LexerError"; "ParserError"; "ValueError"]);
+    (* META.CONTRACT route of the grammar compiler: TypeError/AttributeError on a non-string META.TYPE
+       (finding C20-gbnf-contract-nonstring-type) *)
+    ("compile_gbnf_from_meta", ["TypeError"; "AttributeError"]);
     (* emit raises on values it cannot write (Absent in value position, unknown node types) *)
     ("emit", ["Exception"]);
     (* json refuses objects that are not dict/list/str/num/bool/None *)
@@ -52,6 +57,8 @@ Definition raising : list (string * list string) :=
     ("os.replace", ["Exception"]); ("os.stat", ["Exception"]); ("os.unlink", ["Exception"]);
     ("os.path.exists", ["Exception"]); ("tempfile.mkstemp", ["Exception"]);
     ("path_obj.parent.mkdir", ["Exception"]); ("path_obj.is_symlink", ["Exception"]);
+    (* pathlib swallows ENOENT/ENOTDIR/EBADF/ELOOP only: ENAMETOOLONG escapes (finding C20-path-name-too-long) *)
+    ("path.exists", ["OSError"]); ("path_obj.exists", ["OSError"]);
     ("raise <reraise>", ["Exception"])
   ].
 
@@ -72,14 +79,13 @@ Definition total : list string :=
     (* pure traversals of a document the reader produced *)
     "project"; "_count_literal_zones"; "_ast_to_dict"; "_ast_to_markdown"; "extract_structural_metrics";
     "validator.validate"; "validator_for_repair.validate"; "validator.routing_log.to_dict"; "repair"; "entry.to_dict";
-    "extract_schema_from_document"; "compile_gbnf_from_meta"; "compiler.compile_schema"; "_extract_contract_field_specs";
+    "extract_schema_from_document"; "compiler.compile_schema"; "_extract_contract_field_specs";
     "chain.to_string"; "chain.compile"; "get_builtin_schema"; "yaml.dump"; "re.search"; "_extract_spec_code";
     (* methods of the tool itself (their own bodies catch what they call) and path predicates *)
     "self.validate_parameters"; "self._validate_path"; "self._compute_hash"; "self._build_unified_diff";
     "self._generate_diff"; "self._apply_mutations"; "self._unwrap_markdown_code_fence";
     "self._repair_curly_brace_annotations"; "self._wrap_plain_text_as_doc"; "self._localized_salvage";
-    "self._track_corrections"; "self._error_envelope"; "self._error_response";
-    "path.exists"; "path_obj.exists"
+    "self._track_corrections"; "self._error_envelope"; "self._error_response"
   ].
 
 Definition lookup_raising (c : str) : option (list str) :=
@@ -145,11 +151,39 @@ Definition envelope_has_status (tool : str) (returns : list (N * str)) (dict_var
   match returns with [] => false | _ => forallb (fun r => shape_ok tool dict_vars (snd r)) returns end.
 
 (* ---- obligations over the generated structure ------------------------------------------------------- *)
-Lemma no_escape_validate : no_escape (L "validate") flow_validate_sites flow_validate_raises = true.
+(* genuine escapes on the pinned tree, each a replayed finding of known_findings: (tool, callee, ordinal, class) *)
+Definition known_escapes : list (string * string * N * string) :=
+  [ (* C20-eject-json-holographic, C20-eject-json-nested-meta: json.dumps(data) outside any try *)
+    ("eject", "json.dumps", 0, "TypeError");
+    (* C20-gbnf-contract-nonstring-type: compile_gbnf_from_meta(doc.meta) outside any try *)
+    ("eject", "compile_gbnf_from_meta", 0, "TypeError"); ("eject", "compile_gbnf_from_meta", 0, "AttributeError");
+    ("compile_grammar", "compile_gbnf_from_meta", 0, "TypeError");
+    ("compile_grammar", "compile_gbnf_from_meta", 0, "AttributeError");
+    (* C20-write-baseline-foreign-exception (caused by C20-lexer-int-digit-limit): re-parse of the existing
+       file under handlers that catch only (LexerError, ParserError) *)
+    ("write", "parse", 1, "ValueError"); ("write", "parse_with_warnings", 0, "ValueError");
+    ("write", "parse", 3, "ValueError");
+    (* C20-path-name-too-long: Path(...).exists() outside any try *)
+    ("validate", "path.exists", 0, "OSError"); ("write", "path_obj.exists", 0, "OSError") ].
+
+Definition known_of (tool : string) : list (str * N * str) :=
+  List.map (fun t => (L (snd (fst (fst t))), snd (fst t), L (snd t)))
+           (filter (fun t => String.eqb (fst (fst (fst t))) tool) known_escapes).
+
+Definition flow_of (tool : string) : list site :=
+  if String.eqb tool "validate" then (flow_validate_sites ++ flow_validate_raises)%list
+  else if String.eqb tool "write" then (flow_write_sites ++ flow_write_raises)%list
+  else if String.eqb tool "eject" then (flow_eject_sites ++ flow_eject_raises)%list
+  else if String.eqb tool "compile_grammar" then (flow_compile_grammar_sites ++ flow_compile_grammar_raises)%list
+  else [].
+
+Definition tool_names : list string := ["validate"; "write"; "eject"; "compile_grammar"].
+
+(* validate: the content-dependent stages are all covered; the one escape is the path predicate *)
+Lemma no_escape_validate_refuted : no_escape (L "validate") flow_validate_sites flow_validate_raises = false.
 Proof. vm_compute. reflexivity. Qed.
-Lemma no_escape_write : no_escape (L "write") flow_write_sites flow_write_raises = true.
-Proof. vm_compute. reflexivity. Qed.
-Lemma no_escape_compile_grammar : no_escape (L "compile_grammar") flow_compile_grammar_sites flow_compile_grammar_raises = true.
+Lemma validate_only_escape_is_path_exists :
+  escapes (L "validate") (flow_validate_sites ++ flow_validate_raises)%list = [(L "path.exists", 0, L "OSError")].
 Proof. vm_compute. reflexivity. Qed.
 
 (* the helpers that build error envelopes call nothing that may raise *)
@@ -159,19 +193,39 @@ Lemma no_escape_helpers :
   no_escape (L "compile_grammar") flow_compile_grammar_helper_error_response_sites [] = true.
 Proof. vm_compute. repeat split; reflexivity. Qed.
 
-(* eject: the full statement is false of the faithful structure; exactly one escape *)
-Definition no_escape_eject_full : Prop := no_escape (L "eject") flow_eject_sites flow_eject_raises = true.
+(* the full statement is false of the faithful structure for every tool ... *)
+Definition no_escape_full : Prop :=
+  forall tool, In tool tool_names -> escapes (L tool) (flow_of tool) = [].
+Lemma no_escape_write_refuted : no_escape (L "write") flow_write_sites flow_write_raises = false.
+Proof. vm_compute. reflexivity. Qed.
 Lemma no_escape_eject_refuted : no_escape (L "eject") flow_eject_sites flow_eject_raises = false.
 Proof. vm_compute. reflexivity. Qed.
-Lemma eject_only_escape_is_json_dumps :
-  escapes (L "eject") (flow_eject_sites ++ flow_eject_raises)%list = [(L "json.dumps", 0, L "TypeError")].
+Lemma no_escape_compile_grammar_refuted :
+  no_escape (L "compile_grammar") flow_compile_grammar_sites flow_compile_grammar_raises = false.
+Proof. vm_compute. reflexivity. Qed.
+Lemma no_escape_full_refuted : ~ no_escape_full.
+Proof. intro H. specialize (H "eject" (or_intror (or_intror (or_introl eq_refl)))). vm_compute in H. discriminate. Qed.
+
+(* ... and what escapes is EXACTLY the list of known findings, tool by tool *)
+Lemma escapes_are_the_known_ones :
+  forallb (fun tool => let e := escapes (L tool) (flow_of tool) in let k := known_of tool in
+                       forallb (fun u => existsb (fun v => str_eqb (fst (fst u)) (fst (fst v)) && N.eqb (snd (fst u)) (snd (fst v))
+                                                           && str_eqb (snd u) (snd v)) k) e
+                       && forallb (fun v => existsb (fun u => str_eqb (fst (fst u)) (fst (fst v)) && N.eqb (snd (fst u)) (snd (fst v))
+                                                              && str_eqb (snd u) (snd v)) e) k) tool_names = true.
 Proof. vm_compute. reflexivity. Qed.
 
-(* with the json.dumps site of eject excluded (the known finding), nothing escapes eject either *)
-Lemma no_escape_eject_partial :
-  filter (fun u => negb (str_eqb (fst (fst u)) (L "json.dumps")))
-         (escapes (L "eject") (flow_eject_sites ++ flow_eject_raises)%list) = [].
-Proof. vm_compute. reflexivity. Qed.
+(* partial form: apart from the known escapes nothing escapes any tool *)
+Definition no_escape_partial_stmt : Prop :=
+  forall tool u, In tool tool_names -> In u (escapes (L tool) (flow_of tool)) ->
+    existsb (fun v => str_eqb (fst (fst u)) (fst (fst v)) && N.eqb (snd (fst u)) (snd (fst v)) && str_eqb (snd u) (snd v))
+            (known_of tool) = true.
+Lemma no_escape_partial : no_escape_partial_stmt.
+Proof.
+  intros tool u Ht Hu.
+  pose proof (proj1 (forallb_forall _ _) escapes_are_the_known_ones tool Ht) as H. cbn zeta in H.
+  apply andb_true_iff in H as [H _]. exact (proj1 (forallb_forall _ _) H u Hu).
+Qed.
 
 Lemma envelopes_have_status :
   forallb (fun t => let '(name, _, returns, dvars) := t in envelope_has_status name returns dvars) flow_tools = true.
@@ -190,11 +244,15 @@ Proof. vm_compute. reflexivity. Qed.
 Definition strip_handlers (callee : str) (sites : list site) : list site :=
   List.map (fun s => if str_eqb (s_callee s) callee then mkSite (s_line s) (s_callee s) (s_ord s) [] else s) sites.
 
+Definition count_escapes (tool : str) (sites : list site) : nat := List.length (escapes tool sites).
+
 Lemma no_escape_detects_unprotected_parse :
-  no_escape (L "validate") (strip_handlers (L "parse_with_warnings") flow_validate_sites) flow_validate_raises = false /\
-  no_escape (L "write") (strip_handlers (L "tokenize") flow_write_sites) flow_write_raises = false /\
-  no_escape (L "compile_grammar") (strip_handlers (L "parse") flow_compile_grammar_sites) flow_compile_grammar_raises = false.
-Proof. vm_compute. repeat split; reflexivity. Qed.
+  (count_escapes (L "validate") flow_validate_sites
+   < count_escapes (L "validate") (strip_handlers (L "parse_with_warnings") flow_validate_sites))%nat /\
+  (count_escapes (L "write") flow_write_sites < count_escapes (L "write") (strip_handlers (L "tokenize") flow_write_sites))%nat /\
+  (count_escapes (L "compile_grammar") flow_compile_grammar_sites
+   < count_escapes (L "compile_grammar") (strip_handlers (L "parse") flow_compile_grammar_sites))%nat.
+Proof. vm_compute. repeat split; try reflexivity; lia. Qed.
 
 (* every site is classified: nothing on the pinned tree falls into the fail-closed default *)
 Definition classified (c : str) : bool := match lookup_raising c with Some _ => true | None => is_total c end.
@@ -217,4 +275,6 @@ Definition report_sites (tool : str) : list (N * str * N * list str * list str) 
                       filter (fun k => negb (covered k (s_stack s))) (may_raise (s_callee s)))) (tool_sites tool).
 Definition report_total : list str := List.map L total.
 Definition report_raising : list (str * list str) := List.map (fun p => (L (fst p), List.map L (snd p))) raising.
+Definition report_known : list (str * str * N * str) :=
+  List.map (fun t => (L (fst (fst (fst t))), L (snd (fst (fst t))), snd (fst t), L (snd t))) known_escapes.
 Definition report_benign : list (str * str * N) := List.map (fun t => (L (fst (fst t)), L (snd (fst t)), snd t)) benign_sites.
